@@ -1,0 +1,6 @@
+//go:build !verif
+
+package engine
+
+// verifVisit is a no-op unless built with the `verif` tag.
+func verifVisit(string) {}
